@@ -10,7 +10,7 @@
    (sent <= offered, which sendmmsg(2) guarantees). *)
 From Coq Require Import List NArith ZArith.
 Import ListNotations.
-From Coq Require Import Sorted.
+From Coq Require Import Sorted Lia.
 From NV Require Import lib.Bytes gen.Consts_WriteBatch model.WriteBatch proofs.WriteBatch_proofs model.SendBatch proofs.SendBatch_proofs.
 Open Scope N_scope.
 
@@ -73,6 +73,34 @@ Theorem C26_gso_monotone : forall cap gso maxSegs pkts orc,
   r_gso (write_batch_cap cap gso maxSegs pkts orc) = true -> gso = true.
 Proof. intros cap gso maxSegs pkts orc. destruct (write_batch_cap_spec cap gso maxSegs pkts orc) as (_ & _ & _ & _ & _ & H). exact H. Qed.
 Print Assumptions C26_gso_monotone.
+
+(* ---- the segment limit itself: prepareGSO's kernel-release gate (gsoMaxSegments) ---------------------------
+   For EVERY major and minor (not a sweep): a kernel older than 6.9 - compared as a pair - gets 63, a kernel from 6.9
+   on gets 127, the limit is monotone in the version and never exceeds UDP_MAX_SEGMENTS - 1 of that kernel. *)
+Theorem C26_segment_limit : forall major minor : Z,
+  ((major < 6 \/ (major = 6 /\ minor < 9))%Z -> gso_max_segments major minor = 63) /\
+  ((6 < major \/ (major = 6 /\ 9 <= minor))%Z -> gso_max_segments major minor = 127) /\
+  gso_max_segments major minor + 1 <= kernel_segs major minor.
+Proof. intros; split; [apply gso_limit_old|split; [apply gso_limit_new|apply gso_limit_safe]]. Qed.
+Print Assumptions C26_segment_limit.
+
+Theorem C26_segment_limit_monotone : forall a b c d : Z,
+  (a < c \/ (a = c /\ b <= d))%Z -> gso_max_segments a b <= gso_max_segments c d.
+Proof. exact gso_limit_mono. Qed.
+Print Assumptions C26_segment_limit_monotone.
+
+(* With the limit the gate gives for a kernel older than 6.9, no offloaded run ever offered has more than the 63
+   segments that kernel accepts - whatever the batch and the faults. *)
+Theorem C26_runs_within_kernel_limit : forall major minor cap gso pkts orc c e,
+  (major < 6 \/ (major = 6 /\ minor < 9))%Z ->
+  In c (r_calls (write_batch_cap cap gso (N.to_nat (gso_max_segments major minor)) pkts orc)) -> In e (c_offered c) ->
+  (2 <= e_pkts e)%nat -> (e_pkts e <= 63)%nat.
+Proof.
+  intros major minor cap gso pkts orc c e Hv Hc He H2.
+  destruct (wb_runs _ _ _ _ _ _ _ Hc He) as (_ & _ & _ & H). destruct (H H2) as (_ & Hm & _).
+  rewrite (gso_limit_old _ _ Hv) in Hm. exact Hm.
+Qed.
+Print Assumptions C26_runs_within_kernel_limit.
 
 (* ---- the layer above: batch.SendBatch (Commit / Flush histories over one batchWriter) -----------------------
    [send_batch cap gso maxSegs orc ops] = one record per Flush of the history ops: f_ids = ids (commit order
